@@ -695,6 +695,15 @@ func (fc *FnCtx) applyCall(st *State, callee *types.Func, recv *Val, args []Val,
 			fc.dropped["effect-free allow-list: "+callee.FullName()] = true
 			return fc.havocResults(st, sig)
 		}
+		// a function of the same package that has no contract (a helper split off by a refactoring, say) is
+		// executed in place: the caller is then verified against the helper's real body, which is sound and
+		// keeps the caller's contract decidable; recursion is cut by the inline depth limit
+		if callee.Pkg() == fc.pkg.Types {
+			if d := fc.eng.declOf(fc.pkg, callee); d != nil && d.Body != nil {
+				fc.dropped["callee without a contract executed in place: "+callee.FullName()] = true
+				return fc.inlineCallee(st, callee, recv, args, pos)
+			}
+		}
 		fc.fail(pos, "no contract for callee %s (key %s)", callee.FullName(), key)
 	}
 	if c.Extern {
@@ -808,6 +817,31 @@ func (fc *FnCtx) applyContract(st *State, c *Contract, home *ContractSet, homePk
 	for k, v := range env.bound {
 		post.bound[k] = v
 	}
+	// cs(e) in a callee's postcondition denotes the state when the callee's last critical section began:
+	// an unknown intermediate state (other goroutines ran before the callee got its lock). It also becomes
+	// the caller's "last critical section" for the caller's own postconditions.
+	usesCS := false
+	for _, e := range c.Ensures {
+		if mentionsCall(e.E, "cs") {
+			usesCS = true
+		}
+		for name, pf := range home.Pures {
+			if strings.Contains(pf.Text, "cs(") && mentionsCall(e.E, name) {
+				usesCS = true
+			}
+		}
+	}
+	if usesCS {
+		mid := pre.clone()
+		for _, m := range c.Modifies {
+			e2 := *env
+			e2.cur, e2.old = pre, pre
+			for _, reg := range fc.regionsOf(m, &e2) {
+				fc.havocRegion(mid, reg)
+			}
+		}
+		st.csSnap = mid
+	}
 	// `ensures result == E` (E not mentioning result) defines the result: bind it to E's term directly
 	defs := map[int]*SExpr{}
 	if sig.Results().Len() == 1 && !c.MayPanic {
@@ -855,31 +889,6 @@ func (fc *FnCtx) applyContract(st *State, c *Contract, home *ContractSet, homePk
 			fc.assume(ps, penv.evalBool(e.E))
 		}
 		fc.pendingPanics = append(fc.pendingPanics, ps)
-	}
-	// cs(e) in a callee's postcondition denotes the state when the callee's last critical section began:
-	// an unknown intermediate state (other goroutines ran before the callee got its lock). It also becomes
-	// the caller's "last critical section" for the caller's own postconditions.
-	usesCS := false
-	for _, e := range c.Ensures {
-		if mentionsCall(e.E, "cs") {
-			usesCS = true
-		}
-		for name, pf := range home.Pures {
-			if strings.Contains(pf.Text, "cs(") && mentionsCall(e.E, name) {
-				usesCS = true
-			}
-		}
-	}
-	if usesCS {
-		mid := pre.clone()
-		for _, m := range c.Modifies {
-			e2 := *env
-			e2.cur, e2.old = pre, pre
-			for _, reg := range fc.regionsOf(m, &e2) {
-				fc.havocRegion(mid, reg)
-			}
-		}
-		st.csSnap = mid
 	}
 	for _, e := range c.Ensures {
 		fc.assume(st, post.evalBool(e.E))
